@@ -84,7 +84,7 @@ func makeWorkspace(c *core.Ctx, name string, nproj int, salt int64) *workspace {
 	return ws
 }
 
-var failClasses = []string{"soil-id", "field-id", "texture", "texture-deep", "fractions", "weather-gap", "tillage-in-crop", "start-year"}
+var failClasses = []string{"soil-id", "field-id", "texture", "texture-deep", "fractions", "weather-gap", "tillage-in-crop", "start-year", "weather-missing"}
 
 // line builds the batch line of project p with its own result folder; fail != "" turns it into a failing line.
 func (ws *workspace) line(pi int, k int, fail string) batchLine { return ws.lineVar(pi, k, fail, 0) }
@@ -132,6 +132,9 @@ func (ws *workspace) lineVar(pi int, k int, fail string, variant int) batchLine 
 		set("PTF", "1")
 	case "weather-gap":
 		set("fcode", "GAP")
+	case "weather-missing":
+		// the multi-year weather file of the line does not exist: the model reports it as an error of that run
+		set("fcode", "NOFILE")
 	case "start-year":
 		set("StartYear", "1950")
 	case "tillage-in-crop":
@@ -433,7 +436,7 @@ func minInt(a, b int) int {
 
 func checkC11(c *core.Ctx) {
 	c.Assume = append(c.Assume,
-		"only the listed reported-error classes must fail per line (unknown soil id / field id, texture not in the tables in the first or in a deeper horizon, inconsistent texture fractions, gap in weather data, tillage between sowing and harvest, start year not matching the first harvest)",
+		"only the listed reported-error classes must fail per line (unknown soil id / field id, texture not in the tables in the first or in a deeper horizon, inconsistent texture fractions, gap in weather data, tillage between sowing and harvest, start year not matching the first harvest; and a multi-year weather file that does not exist, which the model reports as a run error in the same way)",
 		"termination: every session has a deadline of 10 minutes (a session of this size takes seconds)")
 	designBatch(c)
 	bin, err := c.BuildRepoBin("hermes2go", true, false)
